@@ -102,8 +102,21 @@ def delay_with_mapper_(
             if not sub_delay:
                 start()
             else:
-                subscription.disposable = sub_delay.subscribe(
-                    lambda _: start(), observer.on_error, start, scheduler=scheduler
+                started = [False]
+                delay_subscription = SingleAssignmentDisposable()
+                subscription.disposable = delay_subscription
+
+                def start_once(_: Any = None) -> None:
+                    if not started[0]:
+                        started[0] = True
+                        start()
+
+                def on_delay_error(error: Exception) -> None:
+                    if not started[0]:
+                        observer.on_error(error)
+
+                delay_subscription.disposable = sub_delay.subscribe(
+                    start_once, on_delay_error, start_once, scheduler=scheduler
                 )
 
             return CompositeDisposable(subscription, delays)
